@@ -11,7 +11,8 @@
 (* Algebra: Arc<U> and Weak<U> are Send and Sync iff U is Send + Sync;     *)
 (* Rc<U> never; Option<P> as P; &X is Send and Sync iff X is Sync; a       *)
 (* struct is the conjunction of its fields; fn pointers, AtomicPtr and     *)
-(* PhantomData<fn() -> T> are always both; Box<dyn Deref> is neither.      *)
+(* PhantomData<fn() -> T> are always both; Box<dyn Deref> is neither;      *)
+(* Box<X> is as X; &dyn Fn is neither, &(dyn Fn + Sync) is both.           *)
 (***************************************************************************)
 EXTENDS Integers, Sequences, TLC, Json
 
@@ -44,6 +45,20 @@ Rows ==
             Row("Cache<&>", p, u, "default", r.send /\ PtrSend(p, u), r.sync /\ PtrSync(p, u)),
             Row("Map<Arc>", p, u, "default", a.send, a.sync),
             Row("MapGuard", p, u, "default", PtrSend(p, u), PtrSync(p, u)),
+            \* other handles to the container (type parameter A of Cache / Map / MapCache): Rc never, Box as its content
+            Row("Cache<Rc>", p, u, "default", FALSE, FALSE),
+            Row("Cache<Box>", p, u, "default", ASend(p, u) /\ PtrSend(p, u), ASync(p, u) /\ PtrSync(p, u)),
+            Row("Map<Rc>", p, u, "default", FALSE, FALSE),
+            Row("MapCache<Arc>", p, u, "default", a.send /\ PtrSend(p, u), a.sync /\ PtrSync(p, u)),
+            Row("MapCache<Rc>", p, u, "default", FALSE, FALSE),
+            \* the projection (type parameter F) is a field too: a thread-bound closure (here &dyn Fn, not Sync) makes
+            \* the wrapper thread-bound, &(dyn Fn + Sync) does not
+            Row("Map<Arc>/F=local", p, u, "default", FALSE, FALSE),
+            Row("Map<Arc>/F=shared", p, u, "default", a.send, a.sync),
+            Row("MapGuard/F=local", p, u, "default", FALSE, FALSE),
+            Row("MapGuard/F=shared", p, u, "default", PtrSend(p, u), PtrSync(p, u)),
+            Row("MapCache<Arc>/F=local", p, u, "default", FALSE, FALSE),
+            Row("MapCache<Arc>/F=shared", p, u, "default", a.send /\ PtrSend(p, u), a.sync /\ PtrSync(p, u)),
             Row("DynGuard", p, u, "-", FALSE, FALSE),
             Row("Constant", p, u, "-", PtrSend(p, u), PtrSync(p, u)) } : <<p, u>> \in Ptrs \X Pointees }
 
